@@ -74,6 +74,24 @@ Outcome(fixed, vtype, args, spread) ==
 Fails(out) == out.o \in {"arity", "error"} \/ (\E i \in 1..Len(out.cs) : out.cs[i].c = "err") \/ (\E i \in 1..Len(out.tail) : out.tail[i].c = "err")
 IsOpen(out) == out.o = "open" \/ (\E i \in 1..Len(out.cs) : out.cs[i].c = "open") \/ (\E i \in 1..Len(out.tail) : out.tail[i].c = "open")
 
+\* ---- results: all of them come back, several as a list, each the value the Go function returned with its dynamic type
+\* (a typed nil slice / map / pointer stays a value of that type; only a nil interface or nil error is the script's nil)
+RKinds == {"int64", "string", "float64", "slice", "nilslice", "nilmap", "nilptr", "ptr", "nilerr", "err", "ifacenil", "ifaceint"}
+RDyn(k) == CASE k \in {"nilerr", "ifacenil"} -> "nil"        \* what arrives: "nil" or the kind itself (same dynamic type, same value)
+             [] k = "ifaceint" -> "int64"
+             [] OTHER -> k
+Results(rs) == IF Len(rs) = 0 THEN [shape |-> "nil", es |-> <<>>]
+               ELSE IF Len(rs) = 1 THEN [shape |-> "single", es |-> <<RDyn(rs[1])>>]
+               ELSE [shape |-> "list", es |-> [i \in 1..Len(rs) |-> RDyn(rs[i])]]
+
+\* ---- methods reached with member syntax: on every shape of receiver value, value-receiver and pointer-receiver methods alike
+RecvShapes == {"struct", "ptrstruct", "namedint", "ptrnamedint", "namedmap", "ptrnamedmap", "namedslice", "ptrnamedslice"}
+\* "yes" | "open": pointer-receiver methods are included wherever Go itself has them in reach (through a pointer) and on struct values (called
+\* on a copy); on a plain non-struct value (a named int / map / slice held by value) Go has no such method in the method set: not asserted
+MethodReachable(shape, recv) == IF recv = "pointer" /\ shape \in {"namedint", "namedmap", "namedslice"} THEN "open" ELSE "yes"
+\* a pointer-receiver method called through a pointer acts on the pointed-to value; through a plain value it may act on a copy (not asserted)
+MutationVisible(shape, recv) == IF recv = "pointer" /\ shape \in {"ptrstruct", "ptrnamedint", "ptrnamedmap", "ptrnamedslice"} THEN "yes" ELSE "open"
+
 \* the tables are total and an error never coexists with a delivered call
 TableSane(fixed, vtype, args, spread) == LET o == Outcome(fixed, vtype, args, spread) IN o.o \in {"call", "callslice", "arity", "error", "open"}
 =============================================================================
